@@ -90,6 +90,42 @@ var sigCases = []sigCase{
 	{"garbage", func(tx *bt.Tx, idx int, code []byte, sats uint64, shf byte, k, o keyPair) []byte { return []byte{0x30, 0x01, 0x02, shf} }},
 }
 
+// derFramed builds a well-framed DER signature body of exactly n bytes (n >= 8): two positive, minimally padded
+// integers whose lengths add up to n-6.  It is not a valid signature for anything; it probes the length limits of
+// the encoding checks (8..72 bytes allowed).
+func derFramed(n int, seed byte) []byte {
+	mk := func(l int, s byte) []byte {
+		if l == 1 {
+			return []byte{0x01 + s%0x7e}
+		}
+		b := make([]byte, l)
+		b[0], b[1] = 0x00, 0x80|s
+		for i := 2; i < l; i++ {
+			b[i] = s + byte(i)*37
+		}
+		return b
+	}
+	rl := (n - 6) / 2
+	sl := n - 6 - rl
+	body := append([]byte{0x02, byte(rl)}, mk(rl, seed)...)
+	body = append(body, 0x02, byte(sl))
+	body = append(body, mk(sl, seed+1)...)
+	return append([]byte{0x30, byte(len(body))}, body...)
+}
+
+func init() {
+	for _, n := range []int{8, 9, 10, 70, 71, 72, 73, 74, 75} {
+		n := n
+		sigCases = append(sigCases, sigCase{fmt.Sprintf("der-len-%d", n), func(tx *bt.Tx, idx int, code []byte, sats uint64, shf byte, k, o keyPair) []byte {
+			return append(derFramed(n, shf), shf)
+		}})
+	}
+	// one byte short of the minimum: cut an 8-byte frame
+	sigCases = append(sigCases, sigCase{"der-len-7", func(tx *bt.Tx, idx int, code []byte, sats uint64, shf byte, k, o keyPair) []byte {
+		return append([]byte{0x30, 0x05, 0x02, 0x01, 0x01, 0x02, 0x00}, shf)
+	}})
+}
+
 func ixExecTx(e *emitter, flags int, unlock, lock []byte, tx *bt.Tx, idx int, sats uint64) string {
 	return e.run("IX.exec", fmt.Sprint(flags), hexE(unlock), hexE(lock), descTx(tx), fmt.Sprint(idx), fmt.Sprint(sats))
 }
